@@ -152,7 +152,25 @@ pub tracked struct Trace {
 pub enum ErrorKind { Generic, Io, PathNotFound, WatchNotFound, InvalidConfig, MaxFilesWatch }
 pub struct NotifyError { pub kind: ErrorKind, pub paths: Vec<PathBuf> }
 pub type NotifyResult<T> = std::result::Result<T, NotifyError>;
-pub struct Event { pub paths: Vec<PathBuf> }
+/// notify::EventKind: the code of the pinned commit does not look at it (every kind of event on a relevant path
+/// invalidates); the accessors exist so that code which starts to filter on it is still extracted and decided
+#[verifier::external_body]
+pub struct EventKind { _p: () }
+impl EventKind {
+    pub uninterp spec fn create(&self) -> bool;
+    pub uninterp spec fn modify(&self) -> bool;
+    pub uninterp spec fn remove(&self) -> bool;
+    pub uninterp spec fn access(&self) -> bool;
+    #[verifier::external_body]
+    pub fn is_create(&self) -> (r: bool) ensures r == self.create() { unimplemented!() }
+    #[verifier::external_body]
+    pub fn is_modify(&self) -> (r: bool) ensures r == self.modify() { unimplemented!() }
+    #[verifier::external_body]
+    pub fn is_remove(&self) -> (r: bool) ensures r == self.remove() { unimplemented!() }
+    #[verifier::external_body]
+    pub fn is_access(&self) -> (r: bool) ensures r == self.access() { unimplemented!() }
+}
+pub struct Event { pub kind: EventKind, pub paths: Vec<PathBuf> }
 #[verifier::external_body]
 pub struct RecommendedWatcher { _p: () }
 pub enum RecursiveMode { Recursive, NonRecursive }
